@@ -50,7 +50,13 @@ pub fn run(ctx: &Ctx) -> Outcome {
         let par = par_of(cfg);
         let block_only = matches!(*fam, "cbc" | "pcbc" | "ige");
         let lmax = if block_only { tier.pick(2 * par + 2, 3 * par + 3) * bs } else { tier.pick(3 * bs + 2, 4 * bs + 3).max(if fam.starts_with("ctr") || *fam == "belt" || *fam == "cfb" { (par + 2) * bs + 1 } else { 0 }) };
-        let lens: Vec<usize> = if block_only { (0..=lmax / bs).map(|n| n * bs).collect() } else { byte_lengths(bs, lmax) };
+        let mut lens: Vec<usize> = if block_only { (0..=lmax / bs).map(|n| n * bs).collect() } else { byte_lengths(bs, lmax) };
+        let mut lmax = lmax;
+        if bs <= 32 {
+            // long calls: past 8 and 16 blocks whatever the parallel width
+            lens.extend(if block_only { vec![9 * bs, 17 * bs] } else { long_lengths(bs) });
+            lmax = lmax.max(17 * bs + 1);
+        }
         let fes = family_frontends(cfg, fam, *dir);
         let iv_len = if *fam == "ige" { 2 * bs } else { bs };
         for key in keys(seed, cfg.key_len).iter().take(1) {
